@@ -4,7 +4,7 @@
    Per node (legal position, consistent key, reached by a legal move or a pass while not in check, ply limit) and per verdict,
    the statement is decided on every run by the extracted monitor mon_nodes on the real engine's hook trace. *)
 From Coq Require Import NArith ZArith List Permutation.
-From JV Require Import Gen.Consts Model.Chess Model.Eval Model.TT Model.Search Model.SearchChess Model.Monitors Proofs.SearchBalance Proofs.SortProofs.
+From JV Require Import Gen.Consts Model.Chess Model.Eval Model.TT Model.Search Model.SearchChess Model.Monitors Proofs.SearchBalance Proofs.SortProofs Proofs.SearchNodes.
 
 Theorem C06_fuel : forall pollp stop_at bypass g depth t rt ri,
   chess_search pollp stop_at bypass g depth t rt ri <> SFuel.
@@ -18,6 +18,28 @@ Theorem C06_sort : forall g ms (e : c_env),
   Permutation (fst (sort_moves move_eqb mcap c_hidx c_cap_score NULL_MOVE g ms e)) ms.
 Proof. intros. apply sort_moves_perm. Qed.
 
+(* every position examined by a search (every node-entry event, main search and quiescence) is reachable from the root by steps
+   "generated move accepted by make_search_move" or "pass made while not in check" -- for every position, depth, TT, history, schedule *)
+Definition chess_reach := reach game move generate_moves c_make null_move (fun g => is_in_check g (white g)).
+Theorem C06_nodes_reachable : forall pollp stop_at bypass fuel g0 g d a b (e : c_env),
+  chess_reach g0 g -> TraceOk game move generate_moves c_make null_move (fun g => is_in_check g (white g)) g0 e ->
+  match chess_negamax pollp stop_at bypass fuel g d a b e with
+  | Val _ e' => TraceOk game move generate_moves c_make null_move (fun g => is_in_check g (white g)) g0 e'
+  | OutOfFuel => True
+  end.
+Proof.
+  intros pollp stop_at bypass fuel g0 g d a b e R T.
+  exact (proj1 (search_nodes game move generate_moves c_make null_move evaluate (fun g => is_in_check g (white g)) hash c_half100
+    move_eqb mcap c_promo c_hidx c_cap_score NULL_MOVE pollp stop_at bypass g0 fuel) g d a b e R T).
+Qed.
+
+(* a mate / stalemate verdict is only issued when make_search_move rejected every generated move of the node
+   (the flag printed with it is is_in_check of the node, by construction of move_phase) *)
+Theorem C06_verdict_no_legal_move : forall rec_n g depth nd inchk ms searched ta b ex (e : c_env) ta' e' ex',
+  nloop c_make hash mcap c_promo c_hidx rec_n g depth nd inchk ms searched O ta b ex e = LDone ta' e' O ex' ->
+  Forall (fun m => c_make g m = None) ms.
+Proof. intros. eapply nloop_no_legal. eassumption. Qed.
+
 (* the per-node statement, as the monitor decides it for one trace (visible, not assumed) *)
 Definition C06_full : Prop := forall pollp stop_at bypass g depth t hist,
   Abs.wf g = true -> keyok_b g = true ->
@@ -28,3 +50,5 @@ Definition C06_full : Prop := forall pollp stop_at bypass g depth t hist,
 
 Print Assumptions C06_fuel.
 Print Assumptions C06_sort.
+Print Assumptions C06_nodes_reachable.
+Print Assumptions C06_verdict_no_legal_move.
